@@ -69,6 +69,8 @@ func main() {
 		os.Exit(cmdCFG(os.Args[2:]))
 	case "asserts":
 		os.Exit(cmdAsserts(os.Args[2:]))
+	case "retlen":
+		os.Exit(cmdRetLen(os.Args[2:]))
 	case "facts":
 		os.Exit(cmdFacts(os.Args[2:]))
 	default:
